@@ -243,8 +243,16 @@ def judge_sched(case, res, with_c, without_c):
             if 'canceled' in c and len(c) == 1:
                 res.see('named_outcomes', 'canceled@%s' % '+'.join(at))
                 continue
-            if c == ['started'] and ('started' in at or n == ['started']):
-                # was running already, or raced the request: must not be lost
+            if c == ['started'] and ('started' in at or n == ['started']
+                                     or at == ['sched-queue']):
+                # was running already, or raced the request: must not be lost.
+                # A task that sat between `work()` and the scheduling loop is
+                # not in the wait pool when the cancel flag is processed: the
+                # loop places it (if it can - which may differ from the run
+                # without the request, where other named tasks still compete)
+                # and the executor cancels it at intake
+                if n != ['started'] and 'started' not in at:
+                    res.count('named_queued_task_placed_differently')
                 res.see('named_outcomes', 'started@%s' % '+'.join(at))
                 if 'waitpool' in at:
                     # the wait pool step of the loop runs before the cancel
